@@ -16,7 +16,7 @@ var allUnary = []peg.Kind{peg.KOpt, peg.KStar, peg.KPlus, peg.KAnd, peg.KNot}
 func init() {
 	register(&Check{
 		ID: "C01", Level: "exploration", QuickSecs: 150, ThoroughSecs: 1500,
-		Rule:        "all grammars S <- v:(body){probe} with body over {'a','b',\"ab\",\"\",[ab],[^a],.} x {?,*,+,&,!} x seq/choice (arity<=3) up to N nodes (quick 5, thorough 6), a second family with i-flag/Unicode terminals, a two-rule family with every Entrypoint, every single label+action decoration of bodies up to 4 nodes, a case sweep (EVERY rune with a case variant below U+3000 and in the later cased blocks as i-literal, as first rune of a longer i-literal and as i-class, against each member of its case orbit), and a family generated with -optimize-grammar (one leaf rule inlined at two places next to different neighbours, compared on success, prefix and flat value); x all inputs over the family's alphabet up to L; x 4 generation flag sets; each compared with the reference PEG interpreter (success, consumed prefix, exact value shape). Non-trivial = the reference backtracked over consumed input.",
+		Rule:        "all grammars S <- v:(body){probe} with body over {'a','b',\"ab\",\"\",[ab],[^a],.} x {?,*,+,&,!} x seq/choice (arity<=3) up to N nodes (quick 5, thorough 6), a second family with i-flag/Unicode terminals, a two-rule family with every Entrypoint, every single label+action decoration of bodies up to 4 nodes, rule graphs (reference graphs over four rules with dead, shared and recursive rules) generated with -optimize-grammar, a case sweep (EVERY rune with a case variant below U+3000 and in the later cased blocks as i-literal, as first rune of a longer i-literal and as i-class, against each member of its case orbit), and a family generated with -optimize-grammar (one leaf rule inlined at two places next to different neighbours, compared on success, prefix and flat value); x all inputs over the family's alphabet up to L; x 4 generation flag sets; each compared with the reference PEG interpreter (success, consumed prefix, exact value shape). Non-trivial = the reference backtracked over consumed input.",
 		Assumptions: []string{"runtime loaded through E1 (emitted grammar literal rebuilt in-process into the working tree's static code); bound to the compiler path by the conformance check", "code blocks are scripted probes"},
 		Run:         runC01,
 	})
@@ -103,6 +103,21 @@ func runC01(c *ShardCtx) {
 			return
 		}
 		optGrammarVsReference(c, wrapFirst(ga.g), []core.Gen{{OptGrammar: true}, {OptGrammar: true, Optimize: true, BasicLatin: true}}, inputs5, "-optimize-grammar")
+	}
+	// family 5b: rule graphs through -optimize-grammar (dead rules, shared recursive rules, leaf rules
+	// inlined into removed rules): the start rule still matches what it matched
+	for gi, ga := range ruleGraphFamily(c.Thorough()) {
+		if !c.Thorough() && gi%3 != 0 {
+			continue
+		}
+		idx++
+		if !c.Mine(idx) {
+			continue
+		}
+		if c.Expired("family 5b") {
+			return
+		}
+		optGrammarVsReference(c, wrapFirst(ga.g), []core.Gen{{OptGrammar: true}, {OptGrammar: true, AltEntry: []string{"D"}}}, inputs5, "-optimize-grammar")
 	}
 	// family 6: case sweep. EVERY rune with a case variant (below U+3000 and in the later cased
 	// blocks) as an i-flagged literal, as the first rune of a longer i-flagged literal and as an
